@@ -66,3 +66,45 @@ func HarnessC08ScenarioProvider() {
 	vObserve("got", int64(got))
 	vReach("end")
 }
+
+// ---- C08/C13: a scenario ammo file that decodes but holds no scenario (`scenarios: []`, or the key
+// is missing): the provider has nothing to deliver. Whatever Run answers, instances waiting in
+// Acquire see the end of ammo - a consumer still blocked after Run returned is a deadlock here -
+// and Run ends with an error (an empty run is not a success) for every limit/passes cell.
+func HarnessC08ScenarioProviderNoScenarios() {
+	limit := uint(vNondetInt("limit", 0, 3))
+	passes := uint(vNondetInt("passes", 0, 3))
+	consumers := int(vConcretize(vNondetInt("consumers", 1, 2)))
+	p := &Provider[*hA]{}
+	p.SetConfig(ProviderConfig{Limit: limit, Passes: passes})
+	p.SetSink(make(chan *hA))
+	p.SetAmmos(nil)
+	var runErr error
+	done := false
+	var wg, cw sync.WaitGroup
+	wg.Add(1)
+	go func() {
+		defer wg.Done()
+		runErr = p.Run(context.Background(), core.ProviderDeps{Log: zap.NewNop()})
+		done = true
+	}()
+	got := 0
+	for c := 1; c < consumers; c++ {
+		cw.Add(1)
+		go func() {
+			defer cw.Done()
+			if _, ok := p.Acquire(); ok {
+				got++
+			}
+		}()
+	}
+	if _, ok := p.Acquire(); ok {
+		got++
+	}
+	cw.Wait()
+	wg.Wait()
+	vCheck("D7.nothing.delivered", got == 0)
+	vCheck("D7.empty.run.is.an.error", runErr != nil)
+	vCheck("D3.run.finished", done)
+	vReach("end")
+}
